@@ -26,13 +26,14 @@ U(v) == Map("u" :> v)
 UW(v) == Map("u" :> Map("w" :> v))
 NA(req, vt, dyn, pop, val) == NsAttr(req, vt, dyn, pop, val)
 '''
-EMIT = 'PrintT(ToJson([tree |-> x.tree, rows |-> LET s == SX!SetToSeq(DOMAIN x.rows) IN [i \\in 1..Len(s) |-> x.rows[s[i]]]]))'
+EMIT = 'PrintT(ToJson([fam |-> x.fam, tree |-> x.tree, rows |-> LET s == SX!SetToSeq(x.rows) IN [i \\in 1..Len(s) |-> s[i][2]]]))'
 
 CFG = '''SPECIFICATION %(spec)s
 CHECK_DEADLOCK FALSE
 CONSTANTS
  Dev <- MCDev
  Emit <- MCEmit
+ Families <- MCFamilies
  Trees <- MCTrees
  InputsFor <- MCInputsFor
  WorkFor <- MCWorkFor
@@ -118,9 +119,9 @@ def c11_families(tier):
         fams.append(dict(
             name='three_ports_small',
             what='every tree with <= 3 ports below the root, depth <= 2, <= 2 ports per namespace, over 5 leaf variants, 4 namespace '
-                 'variants (2 for empty level-2 namespaces), 2 roots; leaf values {absent,0,-1,"s"}, namespace values {absent,"s","",dict}, '
+                 'variants (2 for empty level-2 namespaces), default root; leaf values {absent,0,-1,"s"}, namespace values {absent,"s","",dict}, '
                  'undeclared key z in {absent,0,{u:"s"}} (root) / {absent,"s"} (nested)',
-            trees=trees(ROOTS_TWO, LEAVES_SMALL_IN, NS_SMALL_IN, NS2_SMALL_IN, 3, 2), inst=inputs_of(**IN_VALS_SMALL)))
+            trees=trees([ROOT_DEFAULT], LEAVES_SMALL_IN, NS_SMALL_IN, NS2_SMALL_IN, 3, 2), inst=inputs_of(**IN_VALS_SMALL)))
     else:
         fams.append(dict(
             name='two_ports_full',
@@ -139,36 +140,53 @@ OUT_VALS_FULL = ['VI0', 'VNEG', 'VS', 'VE', 'U(VI0)', 'U(VS)']
 OUT_VALS_SMALL = ['VI0', 'VNEG', 'VS', 'U(VI0)']
 
 
+def _shape(expr, cond):
+    return '{x \\in %s : %s}' % (expr, cond)
+
+
+NESTED = 'Len(x.ports) = 1 /\\ Len(x.ports[1].p.ports) = 1'
+FLAT2 = 'Len(x.ports) = 2'
+DYN_ROOTS = ['NA(TRUE, "none", TRUE, TRUE, "none")', 'NA(TRUE, "int", TRUE, TRUE, "nonneg")']
+
+
 def c12_families(tier):
-    if tier == 'quick':
-        return [
-            dict(name='one_port_full',
-                 what='every output tree with <= 1 port below the root, ALL leaf (required x valid_type x validator) and namespace '
-                      '(required x dynamic/valid_type x validator) attribute combinations, 6 roots; every sequence of <= 2 out() calls over '
-                      'paths of length <= 3 (declared, undeclared z.u.w, through a leaf) x values {0,-1,"s",{},{u:0},{u:"s"}}; sequences of 2 '
-                      'also split over two successive processes of the class; UnsuccessfulResult for sequences of <= 1 call',
-                 trees=trees(ROOTS_OUT_WIDE, 'AllOutputLeaves', ALL_NS_OUT, '{}', 1, 1), inst=work_of(3, OUT_VALS_FULL, 2)),
-            dict(name='two_ports_small',
-                 what='every output tree with 2 ports below the root (flat or nested) over 3 leaf / 3 namespace variants (2 at level 2), '
-                      '3 roots; every sequence of <= 2 calls over paths of length <= 2 x values {0,-1,"s",{u:0}}, split as above',
-                 trees='{x \\in %s : Len(x.ports) = 2 \\/ (Len(x.ports) = 1 /\\ Len(x.ports[1].p.ports) = 1)}'
-                       % trees(ROOTS_OUT, LEAVES_SMALL_OUT, NS_SMALL_OUT, NS2_SMALL_OUT, 2, 1),
-                 inst=work_of(2, OUT_VALS_SMALL, 2)),
-        ]
-    return [
-        dict(name='one_port_full_3calls',
-             what='as quick/one_port_full with sequences of <= 3 calls over values {0,-1,"s",{u:0}}, every split, UnsuccessfulResult for all',
-             trees=trees(ROOTS_OUT_WIDE, 'AllOutputLeaves', ALL_NS_OUT, '{}', 1, 1),
-             inst=work_of(3, OUT_VALS_SMALL, 3, unsuccessful='all')),
+    q = tier == 'quick'
+    fams = [
         dict(name='one_port_full',
-             what='as quick/one_port_full (values incl. {} and {u:"s"}), UnsuccessfulResult for all sequences',
-             trees=trees(ROOTS_OUT_WIDE, 'AllOutputLeaves', ALL_NS_OUT, '{}', 1, 1),
-             inst=work_of(3, OUT_VALS_FULL, 2, unsuccessful='all')),
-        dict(name='three_ports_small',
-             what='every output tree with <= 3 ports below the root, depth <= 2, <= 2 ports per namespace over 3 leaf / 3 namespace variants '
-                  '(2 at level 2), 3 roots; every sequence of <= 2 calls over paths of length <= 3 x values {0,-1,"s",{u:0}}, every split',
-             trees=trees(ROOTS_OUT, LEAVES_SMALL_OUT, NS_SMALL_OUT, NS2_SMALL_OUT, 3, 2), inst=work_of(3, OUT_VALS_SMALL, 2)),
+             what='every output tree with <= 1 port below the root, ALL leaf (required x valid_type x validator) and namespace '
+                  '(required x dynamic/valid_type x validator) attribute combinations, %d roots; every sequence of <= 2 out() calls over '
+                  'paths of length <= 2 (declared, undeclared z.u, through a leaf a.u) x values %s; sequences of 2 also split over two '
+                  'successive processes of the class; UnsuccessfulResult for %s' % (
+                      (3, '{0,-1,"s",{u:0}}', 'sequences of <= 1 call') if q else (6, '{0,-1,"s",{},{u:0},{u:"s"}}', 'all sequences')),
+             trees=trees(ROOTS_OUT if q else ROOTS_OUT_WIDE, 'AllOutputLeaves', ALL_NS_OUT, '{}', 1, 1),
+             inst=work_of(2, OUT_VALS_SMALL if q else OUT_VALS_FULL, 2, unsuccessful='short' if q else 'all')),
+        dict(name='deep_paths',
+             what='dynamic roots x (no port | 2 leaf variants | 2 namespace variants); every sequence of <= 2 calls (<= 3 in thorough) over '
+                  'paths of length <= 3 (z.u.w, a.z.u, a.u.w ...) x values {0,-1,"s",{u:0}}, every split over two processes',
+             trees=trees(DYN_ROOTS, LEAVES_SMALL_OUT[:2], NS_SMALL_OUT[1:], '{}', 1, 1),
+             inst=work_of(3, OUT_VALS_SMALL, 2 if q else 3)),
+        dict(name='nested_small',
+             what='every output tree root{a: namespace{p: leaf | empty namespace}} over 3 leaf / 3 namespace variants (2 at level 2), %d roots; '
+                  'every sequence of <= 2 calls over paths of length <= %d x values {0,-1,"s",{u:0}}, every split' % ((2, 2) if q else (3, 3)),
+             trees=_shape(trees(ROOTS_OUT[:2] if q else ROOTS_OUT, LEAVES_SMALL_OUT, NS_SMALL_OUT, NS2_SMALL_OUT, 2, 1), NESTED),
+             inst=work_of(2 if q else 3, OUT_VALS_SMALL, 2)),
+        dict(name='flat_pairs',
+             what='every output tree with 2 ports below the root%s over 3 leaf / 3 namespace variants, %d roots; every sequence of <= 2 '
+                  'calls over paths of length <= 2 x values {0,-1,"s",{u:0}}%s' % (
+                      (' (the first a leaf)', 2, ', single process') if q else ('', 3, ', every split')),
+             trees=_shape(trees(ROOTS_OUT[:2] if q else ROOTS_OUT, LEAVES_SMALL_OUT, NS_SMALL_OUT, '{}', 2, 2),
+                         FLAT2 + (' /\\ x.ports[1].p.node = "leaf"' if q else '')),
+             inst=work_of(2, OUT_VALS_SMALL, 2, two_process=not q)),
     ]
+    if not q:
+        fams.append(dict(
+            name='three_ports_small',
+            what='every output tree with 3 ports below the root, depth <= 2, <= 2 ports per namespace over 3 leaf / 3 namespace variants '
+                 '(2 at level 2), default and dynamic root; every sequence of <= 2 calls over paths of length <= 2 x values {0,-1,"s",{u:0}}',
+            trees=_shape(trees(ROOTS_OUT[:2], LEAVES_SMALL_OUT, NS_SMALL_OUT, NS2_SMALL_OUT, 3, 2),
+                         'Len(x.ports) + (IF Len(x.ports) > 0 THEN Len(x.ports[1].p.ports) ELSE 0) + (IF Len(x.ports) > 1 THEN Len(x.ports[2].p.ports) ELSE 0) = 3'),
+            inst=work_of(2, OUT_VALS_SMALL, 2, two_process=False)))
+    return fams
 
 
 # ---- explicit families (hypothesis-generated instances) ---------------------------------------------------------
@@ -217,27 +235,31 @@ def explicit_family(name, what, kind, items):
 
 
 # ---- running ----------------------------------------------------------------------------------------------------
-def mc_module(name, kind, fam, dev, emit=True):
+def mc_module(name, kind, fams, dev, emit=True):
+    """One MC module over all families: Init chooses the family and one of its trees."""
     tla = HEADER % dict(name=name, dev=_set(['"%s"' % d for d in dev]), emit=EMIT if emit else 'TRUE')
-    tla += fam.get('extra', '')
-    tla += 'MCTrees == %s\n' % fam['trees']
+    for f in fams:
+        tla += f.get('extra', '')
+    tla += 'MCFamilies == %s\n' % _set(['"%s"' % f['name'] for f in fams])
+    tla += 'MCTrees(f) == CASE ' + '\n  [] '.join('f = "%s" -> %s' % (f['name'], f['trees']) for f in fams) + '\n'
+    inst = 'CASE ' + '\n  [] '.join('f = "%s" -> %s' % (f['name'], f['inst']) for f in fams) + '\n'
     if kind == 'input':
-        tla += 'MCInputsFor(t) == %s\nMCWorkFor(t) == {}\n' % fam['inst']
+        tla += 'MCInputsFor(f, t) == %sMCWorkFor(f, t) == {}\n' % inst
     else:
-        tla += 'MCInputsFor(t) == {}\nMCWorkFor(t) == %s\n' % fam['inst']
+        tla += 'MCInputsFor(f, t) == {}\nMCWorkFor(f, t) == %s' % inst
     tla += '====\n'
     cfg = CFG % dict(spec='Spec11' if kind == 'input' else 'Spec12')
     return tla, cfg
 
 
-def run_family(kind, fam, dev, emit=True, timeout=3000):
-    """-> (tlc Result, list of report lines (JSON text, one per tree))."""
-    name = 'MC_Ports_%s' % fam['name']
-    tla, cfg = mc_module(name, kind, fam, dev, emit)
+def run_families(kind, fams, dev, emit=True, timeout=3000, workers=None):
+    """-> (tlc Result, list of report lines (JSON text, one per (family, tree)))."""
+    name = 'MC_Ports_%s_%s' % ('C11' if kind == 'input' else 'C12', 'aswritten' if dev else 'intended')
+    tla, cfg = mc_module(name, kind, fams, dev, emit)
     with tlc.Workdir() as wd:
         wd.write(name + '.tla', tla)
         wd.write(name + '.cfg', cfg)
-        res = tlc.run(wd, name + '.tla', name + '.cfg', timeout=timeout)
+        res = tlc.run(wd, name + '.tla', name + '.cfg', timeout=timeout, workers=workers)
     lines = [ln for ln in res.out.splitlines() if ln.startswith('"{')]
     if not res.violated and not res.ok:
         raise tlc.MachineryError('TLC did not complete on %s:\n%s' % (name, res.out[-3000:]))
